@@ -56,11 +56,11 @@ def _sources(pname):
             return Arr(IN, q=("features",))
         if t == ("attr", ("param", pname), "targets"):
             return Arr(IN, q=("targets",))
-        if t[0] == "item" and t[2] == 0 and t[1][0] == "call" and \
-                t[1][1] == GSL:
-            return Arr(IN, q=("labels",))
-        if t[0] == "item" and t[1][0] == "call" and t[1][1] == GSL:
-            return Scalar()
+        from ..tutil import positional
+        ps_ = positional(t)
+        if ps_ and ps_[0][0] == "call" and ps_[0][1] == GSL:
+            # element 0 of the result are the labels, the others scalars
+            return Arr(IN, q=("labels",)) if ps_[1] == 0 else Scalar()
         return None
 
     return src
@@ -177,14 +177,23 @@ def _check_fit_alignment(ctx, fit):
                         "feature rows and labels given to estimator.fit "
                         "belong to the same PSMs", case)
         for call in hp_calls:
-            x = al.ev(T.of(call.args[1]))
-            y = al.ev(T.of(call.args[2]))
+            hb = prog.bind(prog.func("mokapot.model._find_hyperparameters"),
+                           call)
+            ctx.require("features" in hb and "labels" in hb,
+                        f"{FIT} [{case}]: _find_hyperparameters call does "
+                        "not supply features and labels")
+            x = al.ev(T.of(hb["features"]))
+            y = al.ev(T.of(hb["labels"]))
             _co_indexed(ctx, fit, call, x, y, "C12a-hyperparameter-rows",
                         "feature rows and labels given to the "
                         "hyper-parameter search belong to the same PSMs",
                         case)
         for call in ul_calls:
-            s = al.ev(T.of(call.args[0]))
+            sarg = call.args[0] if call.args else {
+                k.arg: k.value for k in call.keywords}.get("scores")
+            ctx.require(sarg is not None, f"{FIT} [{case}]: _update_labels "
+                        "called without scores")
+            s = al.ev(T.of(sarg))
             if isinstance(s, Opaque):
                 raise AnalysisError(
                     f"{FIT} [{case}]: scores handed to _update_labels not "
@@ -347,12 +356,27 @@ def _check_prediction(ctx, df, fit):
     guard_ok = False
     from ..cfg import CFG
     cfg = CFG(df.node)
+    from ..astutil import cond_terms
+    SELF_FEATS = ("attr", ("param", "self"), "features")
+
+    def as_set_of(x):
+        if x[0] == "call" and x[1] in ("builtins.set",
+                                       "builtins.frozenset") and x[2]:
+            return x[2][0]
+        return None
+
     for r in raises:
-        for test, pol in cfg.guards(r):
-            tt = T.of(test)
-            txt = tkey(tt, 300)
-            if pol and tt[0] == "cmp" and tt[1] == "!=" and \
-                    "self.features" in txt and "set(" in txt:
+        for tt, pol in cond_terms(cfg, T, r):
+            if tt[0] != "cmp" or not (
+                    (tt[1] == "!=" and pol) or (tt[1] == "==" and not pol)):
+                continue
+            a, b = as_set_of(tt[2]), as_set_of(tt[3])
+            if a is None or b is None:
+                continue
+            sides = [a, b]
+            if any(strip_conv(x) == SELF_FEATS for x in sides) and any(
+                    any(y == ("attr", ("param", pname), "features")
+                        for y in walk_term(x)) for x in sides):
                 guard_ok = True
     ctx.check(guard_ok, "C12c-feature-mismatch-raises", df,
               "a dataset whose feature set differs from the model's raises",
